@@ -146,11 +146,15 @@ def fam_authority(res):
     for scheme in SCHEMES:
         for (htext, hkind, hexp) in HOSTS:
             for (ptext, pkind) in PORTS:
-                for extra in ("plain", "userinfo", "fragment"):
+                for extra in ("plain", "userinfo", "fragment", "emptyuserinfo", "emptyuserpw"):
                     for path, pexp in (("", ()), ("/x/y?k=v", ("x", "y"))):
                         netloc = htext + ("" if ptext is None else ":" + ptext)
                         if extra == "userinfo":
                             netloc = "user:pw@" + netloc
+                        elif extra == "emptyuserinfo":
+                            netloc = "@" + netloc          # user info present but empty: still user info
+                        elif extra == "emptyuserpw":
+                            netloc = ":@" + netloc
                         uri = ("" if scheme is None else scheme + ":") + "//" + netloc + path + ("#frag" if extra == "fragment" else "")
                         case = {"family": "authority", "scheme": scheme, "host": htext, "port": ptext, "extra": extra,
                                 "shape": (hkind, pkind, extra, scheme is None, scheme == "http")}
@@ -167,7 +171,7 @@ def fam_authority(res):
                             else:
                                 check_text(res, "authority", uri, "ok", case, {"proxy": uri, "path": (), "host": None}, stable=False)
                             continue
-                        if hkind == "bad" or pkind == "bad" or extra == "userinfo":
+                        if hkind == "bad" or pkind == "bad" or extra in ("userinfo", "emptyuserinfo", "emptyuserpw"):
                             check_text(res, "authority", uri, "reject", dict(case, why=hkind + pkind + extra))
                             continue
                         if hkind == "dontcare":
